@@ -45,10 +45,10 @@ SCHED_RULE = (" A third generator runs small concurrent programs under a coopera
               "the schedule vector shrinks and replays.")
 
 
-def _pool(test, rule, nontriv, quick=12000, thorough=150000, extra_assume=None, conc=None):
+def _pool(test, rule, nontriv, quick=12000, thorough=400000, extra_assume=None, conc=None):
     d = dict(kind="harness", pkg="./poolsim", test=test,
                 quick=dict(checks=quick, shards=4, timeout=600),
-                thorough=dict(checks=thorough, shards=16, timeout=3000),
+                thorough=dict(checks=thorough, shards=16, timeout=3300),
                 rule="rapid-generated pool histories (resolver updates, state reports for pool/replacement/removed/unknown conns, picks on current and stale pickers "
                      "with plain/BIND/BOUND/UNBIND methods and keys from a 4-key alphabet, completions with 6 outcomes, clock advances incl. detector-window boundaries +-1ns, "
                      "factory failures; steering composites expand to primitive ops) executed against the real balancer behind a fake ClientConn in a synctest bubble and "
@@ -62,7 +62,7 @@ def _pool(test, rule, nontriv, quick=12000, thorough=150000, extra_assume=None, 
         d["quick"]["shards"] = 6
         d["thorough"]["shards"] = 15
         if len(conc) > 4:
-            d["parts"].append(dict(pkg="./conc", test=conc[4], replay_key="schedule", quick_checks=250, thorough_checks=6000))
+            d["parts"].append(dict(pkg="./conc", test=conc[4], replay_key="schedule", quick_checks=250, thorough_checks=15000))
             d["quick"]["shards"] = 8
             d["thorough"]["shards"] = 16
             d["rule"] += SCHED_RULE
@@ -76,7 +76,7 @@ CONC_RULE_PLACEHOLDER = (" A second generator (engine conc) runs concurrent work
 PROPS.update({
     "C10": dict(kind="harness", pkg="./conc", test="TestC10", race=True, instr=True,
                 quick=dict(checks=250, shards=4, timeout=900, env={"GORACE": "halt_on_error=0 history_size=3"}),
-                thorough=dict(checks=4000, shards=12, timeout=3300, env={"GORACE": "halt_on_error=0 history_size=3"}),
+                thorough=dict(checks=10000, shards=12, timeout=3500, env={"GORACE": "halt_on_error=0 history_size=3"}),
                 rule="generated workload programs compiled with -race on instrumented sources (yield points in front of every mutex/atomic operation of the five library files; the yield hook perturbs the schedule "
                      "with Gosched / microsecond sleeps from a seeded generator). W1 pool: one goroutine issues the serialized balancer callbacks (state flaps, resolver updates, resolver errors, bringing new "
                      "and replacement connections up), 2-8 goroutines run pick->complete loops on current and stale pickers with plain/BIND/BOUND/UNBIND methods, already expired deadlines and a 1 ms detection window "
@@ -91,7 +91,7 @@ PROPS.update({
                 files={"leaf/e2e-checksum/codec_verif_test.go": "zz_verif_codec_test.go"},
                 tests=[(".", "TestC19")],
                 quick=dict(checks=6000, shards=4, timeout=900),
-                thorough=dict(checks=60000, shards=16, timeout=3000, fuzz=[(".", "FuzzC19", 90)]),
+                thorough=dict(checks=150000, shards=16, timeout=3300, fuzz=[(".", "FuzzC19", 180)]),
                 rule="descriptor-driven message filler over 20 root message types already linked into the module (structpb Value/Struct/ListValue, descriptorpb File/Descriptor/FieldOptions, "
                      "datastore Entity/Value/Key/CommitRequest/RunQueryRequest/LookupResponse/Mutation, Any, wrappers, Api, Type): field presence, scalar extremes, unknown enum numbers, nested depth <=5, "
                      "repeated 0-8, maps, oneofs, bytes up to 70000, well-formed unknown fields (incl. an own field 2047) appended. Oracle: output starts FD 7F; bytes 2..5 little-endian = CRC32C of the rest "
@@ -106,7 +106,7 @@ PROPS.update({
                        "leaf/spanner_prober/main_verif_test.go": "zz_verif_main_test.go"},
                 tests=[("./prober", "TestC18Prober"), (".", "TestC18Flags")],
                 quick=dict(checks=30000, shards=2, timeout=900),
-                thorough=dict(checks=400000, shards=16, timeout=3000, fuzz=[("./prober", "FuzzT4T7", 45), (".", "FuzzFlags", 45)]),
+                thorough=dict(checks=1000000, shards=16, timeout=3300, fuzz=[("./prober", "FuzzT4T7", 90), (".", "FuzzFlags", 90)]),
                 rule="in-package tests compiled in a scratch copy of spanner_prober. Backoff: (base,max,retries...) with 0<=base<=max over the whole int64 range (classes: small, <1h, around 2^53 ns, "
                      "near MaxInt64, uniform), increasing retry counts up to 2^62 (huge counts only for base>0), oracle base<=b<=max and non-decreasing. GFE latency: header/trailer metadata pairs "
                      "(present/absent/empty lists, 0-4 entries from a pool of 20 well- and ill-formed entries plus random values) against a reference parser written from the statement; no panic. "
@@ -118,9 +118,9 @@ PROPS.update({
                         "backoff is checked for 0 <= base <= max (every caller passes positive constants)", "a search, not a proof"]),
     "C17": dict(kind="harness", parts=[dict(pkg="./cfg", test="TestC17", replay_key="text"), dict(pkg="./poolsim", test="TestC17Pool", replay_key="ops"),
                                        dict(pkg="./cfg", test="TestC17", replay_key="text"), dict(pkg="./poolsim", test="TestC17Pool", replay_key="ops"),
-                                       dict(pkg="./gmesim", test="TestC17GME", replay_key="init", quick_checks=400, thorough_checks=8000)],
+                                       dict(pkg="./gmesim", test="TestC17GME", replay_key="init", quick_checks=400, thorough_checks=20000)],
                 quick=dict(checks=15000, shards=5, timeout=600),
-                thorough=dict(checks=200000, shards=15, timeout=3000, fuzz=("FuzzC17", 90)),
+                thorough=dict(checks=500000, shards=15, timeout=3300, fuzz=("FuzzC17", 180)),
                 rule="two generators. (1) JSON texts of ApiConfig built from a drawn message by a schema-driven renderer - valid by construction (camelCase or snake_case names, numbers as "
                      "numbers / integral floats / exponents / strings, enums by name or number incl. unknown numbers, null for singular fields, arbitrary whitespace and order, zero values written or omitted) "
                      "or carrying exactly one of 28 injected faults - checked for accept/reject, equality with the expected message and a lossless round trip; every 10th valid case also goes through "
@@ -134,9 +134,9 @@ PROPS.update({
                                       "method names listed in several entries are generated but only checked for absence of panics"]),
     "C12": dict(kind="harness", pkg="./icept", test="TestC12", instr=True,
                 parts=[dict(pkg="./icept", test="TestC12", replay_key="steps"), dict(pkg="./icept", test="TestC12", replay_key="steps"), dict(pkg="./icept", test="TestC12", replay_key="steps"),
-                       dict(pkg="./conc", test="TestSchedC12", replay_key="schedule", quick_checks=300, thorough_checks=6000)],
+                       dict(pkg="./conc", test="TestSchedC12", replay_key="schedule", quick_checks=300, thorough_checks=15000)],
                 quick=dict(checks=10000, shards=4, timeout=600),
-                thorough=dict(checks=150000, shards=16, timeout=3000),
+                thorough=dict(checks=400000, shards=16, timeout=3300),
                 rule="stream programs: per-creation outcomes (ok / error / blocks until the context ends), up to 14 steps distributed over a sender, a receiver and a third goroutine "
                      "(SendMsg, RecvMsg, CloseSend, Header, Trailer, Context, context cancellation or deadline, message delivery), fake underlying stream that records every call; "
                      "executed in a synctest bubble, synctest.Wait() after each step decides returned vs durably blocked. Oracle: no stream before the first SendMsg, exactly one after a success, "
@@ -149,7 +149,7 @@ PROPS.update({
                                         "while a blocking stream creation holds the stream's mutex no other method is issued (mutex waits are not observable in a synctest bubble)"]),
     "C11": dict(kind="harness", pkg="./keys", test="TestC11",
                 quick=dict(checks=40000, shards=2, timeout=600),
-                thorough=dict(checks=400000, shards=16, timeout=3000, fuzz=("FuzzC11", 90)),
+                thorough=dict(checks=1000000, shards=16, timeout=3300, fuzz=("FuzzC11", 180)),
                 rule="(type, value, locator) triples: struct types built with reflect.StructOf from a drawn shape tree (depth<=3; string,int,bool,*string,[]string,[]int,"
                      "struct,*struct,[]struct,[]*struct; colliding field names), values with nil pointers / nil and empty slices / nil list elements at every depth, locators = "
                      "a valid path of the type, mutated in 35% of the cases (case, extra/dropped/doubled/empty segments, unicode); 10% exotic Go values (embedded nil pointers, "
@@ -164,37 +164,37 @@ PROPS.update({
                  extra_assume=["keys whose home channel was dead (Shutdown) while bound are don't-care until unbound; the empty key is no key"]),
     "C02": _pool("TestC02", "Profile 'load'. Oracle: every unkeyed/unknown-key placement is on a channel of the picker's READY snapshot whose model in-flight count (placements minus completions, never read from the library) is minimal; end-of-case drain: after completing every call, n picks land on n distinct READY channels.",
                  "a least-loaded choice among >=2 snapshot channels plus a completion with a non-ok outcome, after a swap, or on a channel that left READY",
-                 conc=("TestConcC02", "Invariant: after the workload is quiescent (every completion ran) n picks land on n distinct channels - every count returned to zero.", 300, 5000)),
+                 conc=("TestConcC02", "Invariant: after the workload is quiescent (every completion ran) n picks land on n distinct channels - every count returned to zero.", 300, 12000)),
     "C03": _pool("TestC03", "Profile 'size' ((min,max,watermark) from {0..6}x{0..6}x{0..4} incl. min>max, strict and lenient factories, pool emptied by shutdowns). Oracle: exactly max(1,min) conns after the first non-empty update; growth only by a saturated pick below max with no Idle/Connecting channel, that pick is told to wait; placement at max; size <= max for min<=max; RemoveSubConn only for the old conn of a completed refresh.",
                  "a growth event, a saturated pick at maxSize, or a re-created pool",
-                 conc=("TestConcC03", "Invariant: the number of pool channels ever created never exceeds maxSize (min<=max) although saturated picks race on stale and current pickers while new connections are being brought up; RemoveSubConn only inside the take-over of a replacement.", 400, 6000, "TestSchedC03")),
+                 conc=("TestConcC03", "Invariant: the number of pool channels ever created never exceeds maxSize (min<=max) although saturated picks race on stale and current pickers while new connections are being brought up; RemoveSubConn only inside the take-over of a replacement.", 400, 14000, "TestSchedC03")),
     "C04": _pool("TestC04", "Profile 'states' (hostile state reports for pool/replacement/removed/unknown conns, repeats, shutdowns, refreshes). Oracle: once anything was published the last published state equals the aggregate over pool conns; READY-set change => publication; picker fails fast with ErrTransientFailure iff published with TRANSIENT_FAILURE; reports for non-pool conns publish nothing.",
                  ">=2 distinct published states, >=1 report for a non-pool conn, and a swap or a shutdown"),
     "C07": _pool("TestC07", "Profile 'detector' (unresponsive_calls 0-4, unresponsive_detection_ms in {0,1,7,100,60000,2^31,2^32-1}). Oracle: reference detector per channel (exact big-integer window ms*2^k); refresh attempt during a completion expected <=> observed; failed creation does not disable later refreshes; swap removes the old conn exactly once; detection disabled => never.",
                  "a refresh expected-and-observed plus one of {boundary hit exactly / +-1ns, backoff k>=1, server-side deadline, deadline call started before the last response, factory refusal, suppressed by refresh in progress}",
-                 conc=("TestConcC07", "Invariant: concurrent qualifying completions on one channel create exactly one replacement while its refresh is in progress; no connection is removed twice.", 120, 2500, "TestSchedC07")),
+                 conc=("TestConcC07", "Invariant: concurrent qualifying completions on one channel create exactly one replacement while its refresh is in progress; no connection is removed twice.", 120, 6000, "TestSchedC07")),
     "C08": _pool("TestC08", "Profile 'fallback' (fallback_to_ready on). Oracle: keyed pick with home not READY on the most recent picker is placed on a READY channel whenever one exists (also saturated), the stand-in is reused while it stays READY and home stays not READY (follows a refresh of the stand-in), home READY again => home; bindings unchanged by fallback.",
                  ">=1 reuse of a stand-in plus one of {saturated READY set, stand-in refreshed, stand-in failed, home recovered}"),
     "C09": _pool("TestC09", "Profile 'rr' (ROUND_ROBIN, 1-6 channels, BIND picks with deadlines/cancellation, blocked picks observed with synctest.Wait). Oracle: assignments follow creation order cyclically while the composition is unchanged (first after a change re-synchronises); a pick is handed its channel only when READY or after its context ended; blocked picks are released by the READY report / swap / context end within one 100 ms poll period of virtual time; other calls obey the load rule.",
                  ">=4 in-order BIND assignments or a blocked BIND released by READY or by context end",
-                 conc=("TestConcC09", "Invariant: n*k round-robin BIND picks issued from several goroutines over n READY channels put exactly k on each channel.", 400, 6000)),
+                 conc=("TestConcC09", "Invariant: n*k round-robin BIND picks issued from several goroutines over n READY channels put exactly k on each channel.", 400, 14000)),
     "C05": _pool("TestC05", "Profile 'hostile' (all feature flags random; nil / typed-nil / empty / non-struct request messages; locators that do not resolve, resolve to an empty list or to a non-string; picks and completions without the interceptor context; stale pickers with every conn down; failing and strict factories; empty address lists; nil / foreign / alternative configs; reports for unknown, removed and replacement conns; pool emptied by shutdowns). Oracle: recover() around every library entry - any panic is a violation; a request whose key cannot be extracted is never placed.",
                  "the history contains at least one hostile element (see the per-class labels)",
-                 conc=("TestConcC05", "Invariant: no pick or completion panics under concurrency.", 300, 5000)),
+                 conc=("TestConcC05", "Invariant: no pick or completion panics under concurrency.", 300, 12000)),
     "C06": _pool("TestC06", "Profile 'hostile' plus a lock probe after every op (a state report for a never-seen conn must return: the balancer lock is free). Oracle: a real-time watchdog outside the bubble (3 s; normal latency is microseconds) catches any call that does not return; a pick that is not a round-robin BIND must not block (synctest.Wait shows it durably blocked); a blocked round-robin BIND returns once its channel is READY or within one 100 ms poll period of virtual time after its context ended, and other calls keep working meanwhile.",
                  "the history reaches one of the named states: factory refusing a resolver update (empty list with the strict factory / armed failure), resolver update on an emptied pool, saturated pool with fallback, calls issued while a round-robin BIND is blocked",
-                 conc=("TestConcC06", "Invariant: every workload finishes within 20 s (normal: milliseconds): no lock-order deadlock between completions, picks and balancer callbacks, no leaked lock.", 300, 5000, "TestSchedC06")),
+                 conc=("TestConcC06", "Invariant: every workload finishes within 20 s (normal: milliseconds): no lock-order deadlock between completions, picks and balancer callbacks, no leaked lock.", 300, 12000, "TestSchedC06")),
     "C20": _pool("TestC20", "Profile 'addresses' (>=3 address lists, resolver errors, growth, refreshes at every stage). Oracle: after every update every alive pool conn has the latest list and was asked to reconnect; growth and replacement conns are created with the latest list; a replacement takes over with the latest list; a resolver error causes no ClientConn call.",
                  "a resolver update while a replacement exists followed by its swap, or growth",
-                 conc=("TestConcC20", "Invariant: after a workload with many resolver updates racing with refreshes, every connection that belongs to the pool (incl. replacements that took over) uses the latest resolved address list.", 120, 2500)),
+                 conc=("TestConcC20", "Invariant: after a workload with many resolver updates racing with refreshes, every connection that belongs to the pool (incl. replacements that took over) uses the latest resolved address list.", 120, 6000)),
 })
 
 def _gme(test, rule, nontriv):
     return dict(kind="harness", pkg="./gmesim", test=test, instr=True,
                 parts=[dict(pkg="./gmesim", test=test, replay_key="ops"), dict(pkg="./gmesim", test=test, replay_key="ops"), dict(pkg="./gmesim", test=test, replay_key="ops"),
-                       dict(pkg="./conc", test=test.replace("Test", "TestConc"), replay_key="goroutines", quick_checks=150, thorough_checks=3000)],
+                       dict(pkg="./conc", test=test.replace("Test", "TestConc"), replay_key="goroutines", quick_checks=150, thorough_checks=7000)],
                 quick=dict(checks=350, shards=4, timeout=900),
-                thorough=dict(checks=6000, shards=12, timeout=3300),
+                thorough=dict(checks=14000, shards=12, timeout=3500),
                 rule="rapid-generated histories over a real GCPMultiEndpoint and four in-memory (bufconn) gRPC servers: option sets with 1-3 named MultiEndpoints over shared endpoints "
                      "(add/remove/rename MultiEndpoints, add/remove/reorder endpoints, change default), endpoint outages and recoveries (dialer refuses + live connections closed), RPCs (unary and stream) "
                      "with no / known / unknown MultiEndpoint name; a recording interceptor appended in DialFunc tells which pool every RPC entered. " + rule +
